@@ -182,10 +182,11 @@ def canon_tuple(t):
     return ("N", -99, [])
 
 
-def run_tree(V, c, S, WO, IRV):
-    """call the real code on fresh copies (it must not keep or alter them)"""
-    wo = [tuple(a) for a in WO]
-    irv = [(a[0], set(a[1]), a[2]) for a in IRV]
+def run_tree(V, c, S, WO, IRV, live=None):
+    """call the real code on fresh copies (it must not keep or alter them), or — live=(list, list) — on the caller's own
+    long-lived list objects, which the caller edits in place between calls"""
+    wo = [tuple(a) for a in WO] if live is None else live[0]
+    irv = [(a[0], set(a[1]), a[2]) for a in IRV] if live is None else live[1]
     s = set(S)
     buf = io.StringIO()
     with contextlib.redirect_stdout(buf), warnings.catch_warnings():
@@ -520,6 +521,71 @@ def run(ctx, res):
                     S = S + [c2]                      # the "c is in S" message path (prints, then carries on)
                     stats["c_in_S_calls"] += 1
                 tcases.append({"c": c2, "S": S, "WO": WO, "IRV": IRV, "style": style, "ncand": ncand})
+        # the SAME list objects reused over consecutive builds and edited in place between them (assertion popped, appended,
+        # replaced, a set inside a tuple altered, cleared and refilled), and lists dropped and re-created back to back (their
+        # id may be recycled): the tree must depend on the lists' contents at the time of the call only
+        live_wo, live_irv = [], []
+        c_live = rng.choice(cands)
+        for step in range(rng.randint(4, 8)):
+            edit = rng.choice(["refill", "pop", "append_contra", "append_rand", "replace", "set_edit", "clear", "reverse", "recreate", "same"])
+            if step == 0:
+                edit = "refill"
+            if edit == "refill":
+                WO, IRV = gen_assertions(rng, cands, c_live, rng.choice(STYLES))
+                live_wo[:] = WO
+                live_irv[:] = IRV
+            elif edit == "pop":
+                lst = rng.choice([l for l in (live_wo, live_irv) if l] or [live_wo])
+                if lst:
+                    lst.pop(rng.randrange(len(lst)))
+            elif edit == "append_contra":     # an assertion contradicting an order that is still free, if there is one
+                S0 = [x for x in cands if x != c_live]
+                free = [list(p) + [c_live] for p in itertools.permutations(S0) if not contradicted(list(p) + [c_live], live_wo, live_irv)]
+                if free:
+                    o = rng.choice(free)
+                    i = rng.randrange(len(o))
+                    if i >= 1 and rng.random() < 0.5:
+                        live_wo.append((o[i], rng.choice(o[:i]), rng.random() < 0.5))
+                    else:
+                        live_irv.append((o[i], set(o[:i]), rng.random() < 0.5))
+            elif edit == "append_rand":
+                if rng.random() < 0.5:
+                    live_wo.insert(rng.randrange(len(live_wo) + 1), rand_neb(rng, cands))
+                else:
+                    live_irv.insert(rng.randrange(len(live_irv) + 1), rand_nen(rng, cands))
+            elif edit == "replace":
+                if live_wo and rng.random() < 0.5:
+                    live_wo[rng.randrange(len(live_wo))] = rand_neb(rng, cands)
+                elif live_irv:
+                    live_irv[rng.randrange(len(live_irv))] = rand_nen(rng, cands)
+            elif edit == "set_edit" and live_irv:
+                a = rng.choice(live_irv)
+                y = rng.choice(cands)
+                (a[1].discard if y in a[1] else a[1].add)(y)
+            elif edit == "clear":
+                live_wo.clear()
+                live_irv.clear()
+            elif edit == "reverse":
+                live_wo.reverse()
+                live_irv.reverse()
+            elif edit == "recreate":          # drop both lists and build new ones straight away, twice
+                for _ in range(2):
+                    WO, IRV = gen_assertions(rng, cands, c_live, rng.choice(STYLES))
+                    del live_wo, live_irv
+                    live_wo, live_irv = list(WO), list(IRV)
+                    k = {"c": c_live, "S": [x for x in cands if x != c_live], "WO": [tuple(a) for a in live_wo],
+                         "IRV": [(a[0], set(a[1]), a[2]) for a in live_irv], "style": "live-recreate", "ncand": ncand}
+                    k["impl"] = run_tree(V, k["c"], k["S"], k["WO"], k["IRV"], live=(live_wo, live_irv))
+                    tcases.append(k)
+                    stats["live_builds"] = stats.get("live_builds", 0) + 1
+                continue
+            if rng.random() < 0.15:
+                c_live = rng.choice(cands)
+            k = {"c": c_live, "S": [x for x in cands if x != c_live], "WO": [tuple(a) for a in live_wo],
+                 "IRV": [(a[0], set(a[1]), a[2]) for a in live_irv], "style": "live-" + edit, "ncand": ncand}
+            k["impl"] = run_tree(V, k["c"], k["S"], k["WO"], k["IRV"], live=(live_wo, live_irv))     # snapshot taken above
+            tcases.append(k)
+            stats["live_builds"] = stats.get("live_builds", 0) + 1
         # parseAssertions on both dialects, and trees built from what it returns (as buildPrintedResults does)
         for _ in range(3):
             pc = gen_parse_case(rng, cands)
@@ -550,7 +616,8 @@ def run(ctx, res):
             tcases.append({"c": "1", "S": ["2", "3"], "WO": [a for t, a in combo if t == "neb"], "IRV": [a for t, a in combo if t == "nen"],
                            "style": "exhaustive3", "ncand": 3})
     for k in tcases:
-        k["impl"] = run_tree(V, k["c"], k["S"], k["WO"], k["IRV"])
+        if "impl" not in k:
+            k["impl"] = run_tree(V, k["c"], k["S"], k["WO"], k["IRV"])
         stats["n_candidates"][k["ncand"]] = stats["n_candidates"].get(k["ncand"], 0) + 1
         stats["styles"][k["style"]] = stats["styles"].get(k["style"], 0) + 1
         if "tree" in k["impl"]:
@@ -568,7 +635,7 @@ def run(ctx, res):
     cr2 = C.run_corr(ctx.pid, "parse", IMPORTS, "parse_case", pcases, parse_case_lit, "agree_parse", shard=120, show="show_parse")
     res.corr.append(("parseAssertions (RLA-log and RAIRE dialects) vs IrvVis.parse_assertions", cr2, parse_case_json))
     res.evaluations += len(tcases) + len(pcases)
-    res.rule = ("3 candidates: every set of <= 2 assertions out of all 18 possible tuples; then groups of 3-6 consecutive calls over one candidate-id set (2-6 candidates) with different assertion sets: sufficient sets "
+    res.rule = ("3 candidates: every set of <= 2 assertions out of all 18 possible tuples; then, per candidate-id set, 4-8 builds on the SAME WOLosers/IRVElims list objects edited in place between builds (pop, append, replace, set inside a tuple altered, clear, reverse, refill) or dropped and re-created, the oracle run on every build; groups of 3-6 consecutive calls over one candidate-id set (2-6 candidates) with different assertion sets: sufficient sets "
                 "built by brute force on the meaning of the assertions, the same minus one assertion, with duplicated tuples (same / flipped "
                 "proved flag), random, mutually inconsistent, NEN with empty eliminated set, assertions naming the alternative winner, "
                 "foreign candidate ids, none; trees also built from parseAssertions output; parse files in both dialects (assertion_json "
